@@ -35,6 +35,7 @@ static const variant_t VARS[6] = {
 
 static int F_RT, F_MODEL, F_TAMPER, F_ZERO, F_PAIRS;
 static unsigned long long n_special, n_shared_inputs;
+static unsigned long long n_null_out;
 static unsigned long long n_cases, n_enc, n_dec, n_verdict_acc, n_verdict_rej, n_model_cmp, n_bytes_cmp,
     n_inplace, n_forged_ok, n_zero_regions, n_zero_bytes, n_guard_end, n_guard_start, n_mid, n_null, n_pairs,
     n_ctl_pairs, n_short, n_checktag, n_long, n_adjacent;
@@ -167,6 +168,8 @@ static void judge(const kctx_t *kc, const uint8_t *pkt, size_t plen, const uint8
         memcpy(cbuf, pkt, plen);
         gb_readonly(&gC2);
         for (i = 0; i < blen; ++i) out[i] = (uint8_t)(junk + i * 7 + 1) | 1;   /* recorded non-zero junk */
+        /* a tag-only packet has no plaintext: the output pointer may be NULL, and the verdict may not depend on that */
+        if (!blen && (junk & 1)) { out = NULL; ++n_null_out; }
     }
     rc = lib_dec(kc->v, out, &mlen, cbuf, plen, kc->ad, kc->adlen, kc->n, kc->k);
     if (rc == -99) return;
@@ -1152,6 +1155,7 @@ int main(int argc, char **argv)
 
     emit_stat("evaluations", n_cases); if (n_special) emit_stat("special_corpus_cases", n_special); emit_stat("cases_with_two_inputs_sharing_memory", n_shared_inputs);
     emit_stat("encrypt_calls", n_enc); emit_stat("decrypt_calls", n_dec);
+    emit_stat("tag_only_packets_opened_with_null_output", n_null_out);
     emit_stat("verdicts_expected_accept", n_verdict_acc); emit_stat("verdicts_expected_reject", n_verdict_rej);
     emit_stat("model_comparisons", n_model_cmp); emit_stat("bytes_compared", n_bytes_cmp);
     emit_stat("inplace_calls", n_inplace); emit_stat("forged_valid_packets", n_forged_ok);
